@@ -5,9 +5,12 @@ manifest.d/not_applicable.json (or a default)."""
 import json, os, glob
 V = os.path.dirname(os.path.dirname(os.path.abspath(__file__)))
 props = [json.loads(l)['id'] for l in open(os.path.join(V, 'properties.jsonl'))]
+enabled = set(open(os.path.join(V, 'manifest.d', 'enabled.txt')).read().split())
 checks = []
 for f in sorted(glob.glob(os.path.join(V, 'manifest.d', 'C*.json'))):
     c = json.load(open(f))
+    if c['property_id'] not in enabled:
+        continue      # fragment exists but the check has not been integrated yet
     pid = c['property_id']
     c.setdefault('quick_cmd', './check %s --tier quick' % pid)
     c.setdefault('thorough_cmd', './check %s --tier thorough' % pid)
